@@ -92,14 +92,16 @@ func c03Time(ctx context.Context) time.Time {
 }
 
 type c03Cfg struct {
-	layout   string // TextLayout | JSONLayout
-	sink     string // console | file | rolling | fanout | builtin
-	threads  [][]c03Event
-	zone     *time.Location // the process's local zone (default UTC)
-	maxAge   string         // retention of the rolling appender in hours (default 24)
-	rootless bool           // the configuration has NO root logger (its logger serves a tag nobody uses) and is destroyed before the events: they go through the built-in console logger after a lifecycle
-	preExist bool           // rolling sinks: the file of the current interval exists already and holds a line an earlier life of the process was acknowledged for
-	level    string         // rolling-logger sinks: the logger's level; fanout: the level of both appender references ("" = not set)
+	layout     string // TextLayout | JSONLayout
+	sink       string // console | file | rolling | fanout | builtin
+	threads    [][]c03Event
+	zone       *time.Location // the process's local zone (default UTC)
+	maxAge     string         // retention of the rolling appender in hours (default 24)
+	rootless   bool           // the configuration has NO root logger (its logger serves a tag nobody uses) and is destroyed before the events: they go through the built-in console logger after a lifecycle
+	secondLife bool           // the configuration is refreshed, used once, destroyed and refreshed AGAIN before the events
+	relDir     bool           // the log directory is given relative to the working directory of the modelled process
+	preExist   bool           // rolling sinks: the file of the current interval exists already and holds a line an earlier life of the process was acknowledged for
+	level      string         // rolling-logger sinks: the logger's level; fanout: the level of both appender references ("" = not set)
 }
 
 func (c c03Cfg) start() time.Time {
@@ -177,6 +179,13 @@ func (c c03Cfg) config() map[string]string {
 		if c.level != "" {
 			m["logger.root.appenderRef[0].level"] = c.level
 			m["logger.root.appenderRef[1].level"] = c.level
+		}
+	}
+	if c.relDir {
+		for k, v := range m {
+			if strings.HasSuffix(k, ".fileDir") && v == "/logs" {
+				m[k] = "logs" // relative to the working directory of the modelled process ("/")
+			}
 		}
 	}
 	if c.rootless {
